@@ -7,7 +7,7 @@ from . import common, genops
 from .common import viol
 
 ID = "C11"
-RUNS = {"quick": 160, "thorough": 4000}
+RUNS = {"quick": 160, "thorough": 1500}
 REAL = common.REAL
 SIMULATED = common.SIMULATED
 ASSUMPTIONS = [
@@ -88,6 +88,8 @@ def gen(rng, tier, ctx):
             base = {"op": "gen_cli", "params": p}
         base["entropy"] = rng.randint(0, 2 ** 32)
         base["solve"] = rng.random() < 0.7
+        if base["op"] == "gen_cli" and base["params"]["width"] * base["params"]["length"] > 150:
+            base["solve"] = rng.random() < 0.25     # tall/wide boards: minutes per file; mostly load + structure
         if rng.random() < (0.5 if base["op"] == "gen_manual" else 0.2):
             base["same_process"] = True     # long-lived driver process calling the entry point repeatedly
         if rng.random() < 0.3:
